@@ -275,3 +275,101 @@ theorem guardsComplete_of_check (rows : List Row) (h : guardsB rows = true) :
     · exact h1
 
 end EPV.Pratt
+
+namespace EPV.Pratt
+open EPV.Syn
+
+/-! #### a prefix symbol whose nud-rbp dominates every lbp parses a primary (unary lookup `?`) -/
+
+/-- every symbol with a modelled `led` has lbp ≤ `r` -/
+def dominates (rows : List Row) (r : Nat) : Bool :=
+  rows.all fun row => match row.led with | .none => true | .other => true | _ => decide (row.lbp ≤ r)
+
+/-- the tree was not built by a `led`: it is an operand, a parenthesised expression or a prefix expression -/
+def notLedBuilt : Tree → Bool
+  | .bin .. => false
+  | .typed .. => false
+  | .post .. => false
+  | _ => true
+
+/-- in every tree returned by the parser, the operand of a prefix symbol whose nud-rbp dominates all
+binding powers is closed before any binary / typed / postfix operator applies: the operator that follows
+takes the whole prefix expression as its left operand -/
+theorem dominant_prefix_operand (rows : List Row) (p r : Nat) (hp : (tableOf rows).nud p = .prefix r)
+    (hdom : dominates rows r = true) :
+    ∀ t, WFr (tableOf rows) t → anyNode (fun n => match n with
+      | .pre q x => q == p && !notLedBuilt x
+      | _ => false) t = false := by
+  have hl : ∀ o, (match (tableOf rows).led o with | .none => True | .other => True | _ => (tableOf rows).lbp o ≤ r) := by
+    intro o
+    simp only [dominates, List.all_eq_true] at hdom
+    by_cases ho : o < rows.length
+    · have := hdom rows[o] (List.getElem_mem ho)
+      simp only [tableOf, List.getElem?_eq_getElem ho, Option.map_some, Option.getD_some]
+      split <;> simp_all
+    · have : rows[o]? = none := List.getElem?_eq_none (by omega)
+      simp [tableOf, this]
+  intro t
+  induction t with
+  | nil => intro h; simp [WFr] at h
+  | atom => intro _; simp [anyNode]
+  | group g c e ih =>
+    intro h
+    cases hn : (tableOf rows).nud g <;> simp only [WFr, hn] at h
+    rcases h.2 with ⟨rfl, -⟩ | h2
+    · simp [anyNode]
+    · simp [anyNode, ih h2]
+  | pre q x ih =>
+    intro h
+    cases hn : (tableOf rows).nud q <;> simp only [WFr, hn] at h
+    rename_i rq
+    obtain ⟨hx, hgt⟩ := h
+    have h0 : (q == p && !notLedBuilt x) = false := by
+      by_cases hqp : q = p
+      · subst hqp
+        rw [hp] at hn
+        simp only [Nud.prefix.injEq] at hn
+        subst hn
+        cases x with
+        | bin o l r' =>
+          cases hled : (tableOf rows).led o <;> simp only [WFr, hled] at hx
+          have := hl o
+          simp only [hled] at this
+          simp only [lbpTop, gtO] at hgt
+          omega
+        | typed o l n =>
+          cases hled : (tableOf rows).led o <;> simp only [WFr, hled] at hx
+          have := hl o
+          simp only [hled] at this
+          simp only [lbpTop, gtO] at hgt
+          omega
+        | post o c l e =>
+          cases hled : (tableOf rows).led o <;> simp only [WFr, hled] at hx
+          have := hl o
+          simp only [hled] at this
+          simp only [lbpTop, gtO] at hgt
+          omega
+        | _ => simp [notLedBuilt]
+      · simp [hqp]
+    simp [anyNode, h0, ih hx]
+  | bin o l r' ihl ihr =>
+    intro h
+    cases hled : (tableOf rows).led o <;> simp only [WFr, hled] at h
+    simp [anyNode, ihl h.1, ihr h.2.1]
+  | typed o l n ih =>
+    intro h
+    cases hled : (tableOf rows).led o <;> simp only [WFr, hled] at h
+    simp [anyNode, ih h.1]
+  | post o c l e ihl ihe =>
+    intro h
+    cases hled : (tableOf rows).led o <;> simp only [WFr, hled] at h
+    obtain ⟨-, hwl, -, -, he⟩ := h
+    rcases he with ⟨rfl, -⟩ | he
+    · simp [anyNode, ihl hwl]
+    · simp [anyNode, ihl hwl, ihe he]
+
+/-- the table with the `nud` of symbol `s` replaced by a plain prefix with the given rbp -/
+def withPrefixNud (rows : List Row) (s : String) (r : Nat) : List Row :=
+  rows.map fun row => if row.sym == s then { row with nud := .prefix r } else row
+
+end EPV.Pratt
